@@ -381,6 +381,13 @@ def le0(d):
     """d <= 0"""
     if isinstance(d, int):
         return d <= 0
+    if len(d.terms) == 1 and d.terms[0][0].op == 'bor':
+        k = d.terms[0][1]
+        x, y = d.terms[0][0].args
+        if k == 1 and d.c == 0:
+            return band(eq0(x), eq0(y))
+        if k == -1 and d.c == 1:
+            return bnot(band(eq0(x), eq0(y)))
     lo, hi = iv(d)
     if hi is not None and hi <= 0:
         return True
@@ -399,6 +406,9 @@ def le0(d):
 def eq0(d):
     if isinstance(d, int):
         return d == 0
+    if d.c == 0 and len(d.terms) == 1 and d.terms[0][0].op == 'bor':
+        x, y = d.terms[0][0].args
+        return band(eq0(x), eq0(y))
     lo, hi = iv(d)
     if (hi is not None and hi < 0) or (lo is not None and lo > 0):
         return False
@@ -628,15 +638,20 @@ def or_(a, b, bits=64):
     ma, mb = maybe_mask(a, bits), maybe_mask(b, bits)
     if ma & mb == 0:
         return add(a, b)
-    import os
-    if os.environ.get('VERIF_DEBUG_OR'):
-        print('OR-fallback', a, hex(ma), b, hex(mb))
     if isinstance(b, int) or isinstance(a, int):
         if isinstance(a, int):
             a, b = b, a
         # a | const = (a & ~const) + const
         return add(and_mask(a, ((1 << bits) - 1) & ~b, bits), b)
-    return sub(add(a, b), and_(a, b, bits))
+    # both symbolic with possibly overlapping bits: a lazy atom (almost always compared with zero)
+    if a.uid > b.uid:
+        a, b = b, a
+    ia, ib = iv(a), iv(b)
+    lo = max(ia[0] or 0, ib[0] or 0)
+    hi = None
+    if ia[1] is not None and ib[1] is not None:
+        hi = (1 << max(ia[1].bit_length(), ib[1].bit_length())) - 1
+    return atom_lin(Atom('bor', (a, b), lo, hi, ('bor', a.uid, b.uid)))
 
 
 def and_(a, b, bits=64):
@@ -699,6 +714,8 @@ def eval_atom(a, model, memo):
     elif a.op == 'fdiv':
         d = eval_int(a.args[1], model, memo)
         v = 0 if d == 0 else eval_int(a.args[0], model, memo) // d
+    elif a.op == 'bor':
+        v = eval_int(a.args[0], model, memo) | eval_int(a.args[1], model, memo)
     else:
         raise ValueError(a.op)
     memo[a.uid] = v
@@ -738,6 +755,7 @@ class Emitter:
         self.done = set()
         self.vars = {}     # name -> ('Int'|'Bool', lo, hi)
         self.nodes = 0
+        self.approx = False
 
     def ref_int(self, t):
         if isinstance(t, int):
@@ -769,15 +787,15 @@ class Emitter:
             v = a.args[0]
             if v not in self.vars:
                 self.vars[v] = ('Int', a.lo, a.hi)
-                self.lines.append('(declare-const |%s| Int)' % v)
+                self.lines.append('(declare-const |i_%s| Int)' % v)
                 cs = []
                 if a.lo is not None:
-                    cs.append('(<= %s |%s|)' % (_num(a.lo), v))
+                    cs.append('(<= %s |i_%s|)' % (_num(a.lo), v))
                 if a.hi is not None:
-                    cs.append('(<= |%s| %s)' % (v, _num(a.hi)))
+                    cs.append('(<= |i_%s| %s)' % (v, _num(a.hi)))
                 if cs:
                     self.lines.append('(assert (and %s))' % ' '.join(cs) if len(cs) > 1 else '(assert %s)' % cs[0])
-            return '|%s|' % v
+            return '|i_%s|' % v
         if ('A', a.uid) in self.done:
             return name
         if a.op == 'div':
@@ -796,6 +814,14 @@ class Emitter:
             x = self.ref_int(a.args[0])
             y = self.ref_int(a.args[1])
             self.lines.append('(define-fun %s () Int (div %s %s))' % (name, x, y))
+        elif a.op == 'bor':
+            # bitwise or of two non-negative values, over-approximated: max(x,y) <= v <= x+y
+            # (sound for unsat answers; a spurious model is caught by the native replay)
+            x = self.ref_int(a.args[0])
+            y = self.ref_int(a.args[1])
+            self.lines.append('(declare-const %s Int)' % name)
+            self.lines.append('(assert (and (<= %s %s) (<= %s %s) (<= %s (+ %s %s))))' % (x, name, y, name, name, x, y))
+            self.approx = True
         else:
             raise ValueError(a.op)
         self.done.add(('A', a.uid))
@@ -810,8 +836,8 @@ class Emitter:
             v = b.args[0]
             if v not in self.vars:
                 self.vars[v] = ('Bool', None, None)
-                self.lines.append('(declare-const |%s| Bool)' % v)
-            return '|%s|' % v
+                self.lines.append('(declare-const |i_%s| Bool)' % v)
+            return '|i_%s|' % v
         if ('B', b.uid) in self.done:
             return name
         if b.op == 'le0':
